@@ -31,6 +31,8 @@ def check(ctx, tier):
     named_reductions(ctx, tk)
     wrapper(ctx, tk)
     mean_rules(ctx, tk)
+    from .C17 import first_match
+    first_match(ctx, "C05.f", ctx.func(RA + "argmax"))
     coh = ctx.cached("coherence", lambda: Coherence(tk))
     report(coh, "C05.e", funcs=[RA + n for n in ("_reduce", "__array_ufunc__", "mean", "sum", "argmax", "argmin")])
     reach = sorted(tk.R.reachable([RA + n for n in ("sum", "prod", "mean", "all", "any", "max", "min", "argmax", "argmin", "_reduce")]))
